@@ -124,6 +124,15 @@ func C11Scenarios(tier string) []*h.Scenario {
 		s.Events = func(hh *h.Hist, slot int) []h.Event {
 			ev := fixedNodeEvents(gg, names)
 			ev = append(ev, evRestart(), evRefreshFails(), evRefreshDown(), evASGEdit(gg.ASG.Name, 4, 8), evASGEdit(gg.ASG.Name, 0, 8))
+			// a hand-made escalator taint that is not a time on the oldest untainted nodes (dry mode tracks
+			// taints itself and must leave the real one alone), and an instance that never joins the cluster
+			// (the cloud target runs ahead of the registered nodes)
+			ev = append(ev, evExtTaint(names[1], "abc"), evExtTaint(names[2], "abc"),
+				h.Event{Label: "instance-never-joins(+1)", Apply: func(hh *h.Hist) {
+					if a := hh.W.FindASG(gg.ASG.Name); a != nil && a.Desired < a.Max {
+						hh.W.AddPendingInstance(a)
+					}
+				}})
 			return ev
 		}
 		out = append(out, s)
